@@ -317,7 +317,9 @@ PROPS = {
                 "derivation that knows the state (line beats variable, variable beats default, "
                 "flags count as present when the variable is set, even empty); the same line with "
                 "undeclared variables set must give the identical outcome; (B') the variable of an "
-                "item that is on the line, set to an invalid value, must not change the outcome; "
+                "item that is on the line, set to a value that does not convert or that fails the "
+                "item's guard, must not change the outcome - also through fallback under a "
+                "repetition (B''); "
                 "a quarter of the levels have fallback_to_usage (usage instead of a failure on an "
                 "empty line, never instead of a value); with the state applied "
                 "`--help` must show the first declared variable of every visible root item as "
